@@ -25,7 +25,7 @@ func (core *JApiCore) processPasteDirectiveList(list []*directive.Directive) *je
 func (core *JApiCore) processDirective(d *directive.Directive) *jerr.JApiError {
 	if d.Type() == directive.Paste {
 		if je := core.processPasteDirective(d); je != nil {
-			return d.KeywordError(je.Error())
+			return d.KeywordError(je.Msg)
 		}
 		return nil
 	}
